@@ -314,7 +314,7 @@ def run(ctx):
                 ctx.violation({"broken": why}, found_input=False)
             return
         with ctx.timed("coq_cases"):
-            bad, err = eval_batched(ctx, "C13", "Base.Record C13.Model C13.Harness", "bool * opts * list record * list record * list record", terms, shard=120)
+            bad, err = eval_batched(ctx, "C13", "Base.Record C13.Model C13.Harness", "bool * opts * list record * list record * list record", terms, shard=150)
         ctx.cov["correspondence"] = {"cases": len(terms), "mismatches": len(bad)}
         if err:
             ctx.violation({"broken": "correspondence-evaluation", "detail": err[-2000:]}, found_input=False)
@@ -333,7 +333,7 @@ def run(ctx):
                 break
         with ctx.timed("cli_tie"):
             picks = [i for i, c in enumerate(cases) if c["left"] and c["right"]][:16]
-            with ThreadPoolExecutor(6) as ex:
+            with ThreadPoolExecutor(2) as ex:
                 cli = list(ex.map(lambda i: run_case_cli(ctx, cases[i], tmpdir, i), picks))
             for i, (st, o, err) in zip(picks, cli):
                 ctx.count(("cli", i))
